@@ -558,6 +558,34 @@ func init() {
 				}
 			}
 		}
+		// exported methods called directly, on zero-value receivers and with values no reader produces: the ValueReader's
+		// own handler methods (it implements both handler interfaces), every TokenType value's String
+		for v := 0; v < 256; v++ {
+			out := guard(func() string { return "ok " + rjson.TokenType(v).String() })
+			s.Evaluations++
+			s.Classes["method:TokenType.String"]++
+			if out == "panic" {
+				s.Violation(fmt.Sprintf("TokenType(%d).String()", v), out, "no panic", "exported-method", "exported method panicked")
+			}
+		}
+		for _, m := range []struct{ field, data string }{{"a", "1}"}, {"a", `"x"}`}, {"", "{}}"}, {`a\n`, "[1]}"}, {"a", ""}, {"a", "x"}, {`\u00`, "1}"}, {"k", "1e999}"}} {
+			for _, warm := range []bool{false, true} {
+				out := guard(func() string {
+					r := &rjson.ValueReader{}
+					if warm {
+						r.ReadValue([]byte(`{"w":[1,{"x":2}]}`))
+					}
+					p, err := r.HandleObjectValue([]byte(m.field), []byte(m.data))
+					p2, err2 := r.HandleArrayValue([]byte(m.data))
+					return fmt.Sprint("ok ", p, err != nil, p2, err2 != nil)
+				})
+				s.Evaluations++
+				s.Classes["method:ValueReader.Handle*Value"]++
+				if out == "panic" {
+					s.Violation(fmt.Sprintf("(&ValueReader{}).HandleObjectValue(%q, %q) warm=%v", m.field, m.data, warm), out, "no panic", "exported-method", "exported method panicked on a zero-value / reused receiver")
+				}
+			}
+		}
 		// number literals on every conversion path (table boundaries of the multiprecision slow path included) through
 		// the float entry points, alone and inside a document
 		lits, lcl := floatLiterals(c)
